@@ -242,6 +242,8 @@ def tree_json(t):
                 out.append({'file': e['name'], 'hex': e['data'].hex()})
         else:
             out.append({'dir': e['name'], 'entries': tree_json(e['ch'])})
+        if e.get('link'):
+            out[-1]['symlink'] = True
     return out
 
 
@@ -252,6 +254,8 @@ def tree_from_json(j):
             out.append(F(e['file'], e['text'].encode('utf-8') if 'text' in e else bytes.fromhex(e['hex'])))
         else:
             out.append(D(e['dir'], tree_from_json(e['entries'])))
+        if e.get('symlink'):
+            out[-1]['link'] = True
     return out
 
 
@@ -259,21 +263,36 @@ def bpath(p):
     return p if isinstance(p, bytes) else p.encode('utf-8')
 
 
-def materialize(t, root, rng=None, order=None):
+LINK_COUNTER = [0]
+
+
+def materialize(t, root, rng=None, order=None, top=None):
     """create the tree under root; creation order inside each directory: the given list order
-    (order='given'), or shuffled with rng"""
+    (order='given'), or shuffled with rng.  An entry with e['link'] is created outside the analysed tree
+    (under <top>.targets/) and a symbolic link to it is placed in the tree: the walker follows links, so
+    the model sees it as an ordinary file / sub-directory."""
     root = bpath(root)
+    if top is None:
+        top = root
     os.makedirs(root)
     es = list(t)
     if rng is not None and order != 'given':
         rng.shuffle(es)
     for e in es:
         p = os.path.join(root, e['name'].encode('utf-8'))
+        real = p
+        if e.get('link'):
+            LINK_COUNTER[0] += 1
+            tdir = top + b'.targets'
+            os.makedirs(tdir, exist_ok=True)
+            real = os.path.join(tdir, b'%d' % LINK_COUNTER[0])
         if e['k'] == 'f':
-            with open(p, 'wb') as f:
+            with open(real, 'wb') as f:
                 f.write(e['data'])
         else:
-            materialize(e['ch'], p, rng, order)
+            materialize(e['ch'], real, rng, order, top)
+        if real != p:
+            os.symlink(real, p)
 
 
 ELIG_NAMES = ['A.sol', 'b.sol', 'Token.sol', 'Vault.sol', 'lib.sol', '.sol', 't.sol', 'tsol.sol', 'a b.sol', 'Ünï.sol',
@@ -307,6 +326,8 @@ def random_tree(rng, pick_content, depth=1, max_depth=4, max_entries=10, p_inert
             used.add(name)
             out.append(D(name, random_tree(rng, pick_content, depth + 1, max_depth, max_entries, p_inert, p_dir * 0.8,
                                            p_undecided, budget)))
+            if rng.random() < 0.12:
+                out[-1]['link'] = True          # a symbolic link to a directory outside the tree
         elif r < p_dir + p_inert:
             name = rng.choice(INERT_NAMES)
             if name in used:
@@ -327,6 +348,8 @@ def random_tree(rng, pick_content, depth=1, max_depth=4, max_entries=10, p_inert
                 continue
             used.add(name)
             out.append(F(name, pick_content(rng)))
+            if rng.random() < 0.06:
+                out[-1]['link'] = True          # a symbolic link to a file outside the tree
     return out
 
 
@@ -390,6 +413,7 @@ def run_impl(hz, runs, rng, keep=False):
         r.root = root
         if not keep:
             shutil.rmtree(root, ignore_errors=True)
+            shutil.rmtree(root + '.targets', ignore_errors=True)
 
 
 # ----------------------------------------------------------------------------- Coq terms
